@@ -221,6 +221,63 @@ pub fn message(r: &mut Rng, o: &MsgOpts) -> Message {
 
 /// well-formed messages at the edges of the format: total length exactly at / just below the 16-bit limit, 255 arguments or
 /// slices, string / raw / name fields around 32 KiB and at the limit, empty payloads
+/// messages around the one-byte / 15-bit limits of a length that are cheap enough to be sampled often: string, raw, name and unit
+/// fields of 253..258, 300 and 1000 bytes (with and without variable info), control payloads with service ids above 15, ids with blanks
+pub fn medium_message(r: &mut Rng, storage: Option<bool>) -> Message {
+    let be = r.coin();
+    let endianness = if be { Endianness::Big } else { Endianness::Little };
+    let n = *r.pick(&[253usize, 254, 255, 256, 257, 258, 300, 1000]);
+    let plain = |k: TypeInfoKind, v: Value| Argument { type_info: TypeInfo { kind: k, coding: StringCoding::UTF8, has_variable_info: false, has_trace_info: false }, name: None, unit: None, fixed_point: None, value: v };
+    let u16arg = plain(TypeInfoKind::Unsigned(TypeLength::BitLength16), Value::U16(0x1234));
+    let (payload, mt): (PayloadContent, MessageType) = match r.below(6) {
+        0 => (PayloadContent::Verbose(vec![plain(TypeInfoKind::StringType, Value::StringVal("s".repeat(n))), u16arg]), MessageType::Log(LogLevel::Info)),
+        1 => (PayloadContent::Verbose(vec![plain(TypeInfoKind::Raw, Value::Raw(r.bytes(n))), u16arg]), MessageType::Log(LogLevel::Warn)),
+        2 => { let mut a = plain(TypeInfoKind::StringType, Value::StringVal("v".repeat(n))); a.type_info.has_variable_info = true; a.name = Some("nm".into());
+               (PayloadContent::Verbose(vec![a, u16arg]), MessageType::Log(LogLevel::Error)) }
+        3 => { let mut a = plain(TypeInfoKind::Signed(TypeLength::BitLength32), Value::I32(-7)); a.type_info.has_variable_info = true; a.name = Some("n".repeat(n)); a.unit = Some("u".repeat(*r.pick(&[0usize, 1, 254, 255, 256])));
+               (PayloadContent::Verbose(vec![a, u16arg]), MessageType::Log(LogLevel::Debug)) }
+        4 => (PayloadContent::NetworkTrace(vec![r.bytes(n), vec![], r.bytes(3)]), MessageType::NetworkTrace(NetworkTraceType::Can)),
+        _ => { let t = *r.pick(&[0x10u8, 0x11, 0x13, 0x24, 0x80, 0xFF]); (PayloadContent::ControlMsg(ControlType::Unknown(t), r.bytes(n % 40)), MessageType::Control(ControlType::Response)) }
+    };
+    let plen = payload_len(&payload, endianness);
+    let (verbose, noar) = match &payload { PayloadContent::Verbose(a) => (true, a.len() as u8), PayloadContent::NetworkTrace(s) => (true, s.len() as u8), _ => (false, 0) };
+    let st = storage.unwrap_or_else(|| r.coin());
+    Message {
+        storage_header: if st { Some(StorageHeader { timestamp: DltTimeStamp { seconds: r.next() as u32, microseconds: r.next() as u32 }, ecu_id: id(r) }) } else { None },
+        header: StandardHeader { version: 1, endianness, has_extended_header: true, message_counter: r.next() as u8, ecu_id: if r.coin() { Some(id(r)) } else { None }, session_id: None, timestamp: None, payload_length: plen as u16 },
+        extended_header: Some(ExtendedHeader { verbose, argument_count: noar, message_type: mt, application_id: id(r), context_id: id(r) }),
+        payload,
+    }
+}
+/// bytes of a verbose message with one string (or raw) argument of n content bytes and a u16 argument, laid out by hand from the
+/// format description (not through the crate's writer, so that a defect of the writer cannot hide from checks that start from bytes)
+pub fn handmade_text_message(r: &mut Rng, n: usize, sh: bool) -> Vec<u8> {
+    let be = r.coin();
+    let raw = r.coin();
+    let w16 = |x: u16| if be { x.to_be_bytes() } else { x.to_le_bytes() };
+    let w32 = |x: u32| if be { x.to_be_bytes() } else { x.to_le_bytes() };
+    let mut p: Vec<u8> = vec![];
+    if raw {
+        p.extend(w32(0x0000_0400));                       // RAWD
+        p.extend(w16(n as u16));
+        p.extend(r.bytes(n));
+    } else {
+        p.extend(w32(0x0000_0200 | (1 << 15)));           // STRG, UTF-8
+        p.extend(w16((n + 1) as u16));
+        p.extend(std::iter::repeat(b'q').take(n));
+        p.push(0);
+    }
+    p.extend(w32(0x0000_0042));                           // UINT 16 bit
+    p.extend(w16(0xBEEF));
+    let mut b: Vec<u8> = vec![];
+    if sh { b.extend(b"DLT\x01"); b.extend((r.next() as u32).to_le_bytes()); b.extend((r.next() as u32).to_le_bytes()); b.extend(b"ECU9"); }
+    let total = 4 + 10 + p.len();
+    b.extend([0x21 | if be { 2 } else { 0 }, r.next() as u8, (total >> 8) as u8, total as u8]);
+    b.extend([0x41, 2]);                                  // verbose log info, two arguments
+    b.extend(b"APP\0CTX\0");
+    b.extend(p);
+    b
+}
 pub fn boundary_message(r: &mut Rng, storage: Option<bool>) -> Message {
     let be = r.coin();
     let endianness = if be { Endianness::Big } else { Endianness::Little };
